@@ -9,6 +9,8 @@
            model with chunk size 8 and with chunk size 256 (over the modelled seekable istream).  The
            three must agree (T_C10mp_stream_equals_memory); the common answer is printed, otherwise
            MODEL-SPLIT with the three answers.
+   kind s<K>: the stream-reader programs on the chunked reader model with chunk size K over the seekable stream: one
+           run (also K < 8, where T_C10mp_stream_equals_memory does not hold: T_C10mp_small_chunk_witness).
    kind n<K>: the stream-reader programs on the chunked reader model with chunk size K over a stream WITHOUT seek
            support (stream_of data false): one run, the answer depends on K.
    kind m: the string-reader model (str_run), for reference.
@@ -110,12 +112,19 @@ let () =
               let threw = (match List.rev l with (AErrOf _ | AIOErr) :: _ -> true | _ -> false) in
               if errpos && threw then s ^ " " ^ string_of_int (int_of_n pos) else s
             | Fault -> "FAULT" in
-          if t.(0) = "k" then begin
+          if t.(0) = "k" && t.(1) = "class" then begin
+            (* k class <pol> <ops> <hex>: the client classes of T_C10mp_nonseekable_forward_client / _lookahead_client *)
+            print_endline (if List.for_all forward_op ops then "FORWARD"
+                           else if lookahead_free narrow widen data o ops data then "LOOKAHEAD-FREE" else "OTHER")
+          end else if t.(0) = "k" then begin
             let k = int_of_string (String.sub t.(1) 1 (String.length t.(1) - 1)) in
             print_endline (if nonseek_ok narrow widen (nat_of_int k) data fuel o ops then "LOCAL" else "NONLOCAL")
           end else if t.(1) = "m" then begin
             if errpos then print_endline "UNSUPPORTED"
             else print_endline (fmt_answers names (str_run narrow widen data o ops))
+          end else if t.(1).[0] = 's' && String.length t.(1) > 1 then begin
+            let k = int_of_string (String.sub t.(1) 1 (String.length t.(1) - 1)) in
+            print_endline (show (mps_run_bsr_pos narrow widen (nat_of_int k) (stream_of data true) fuel o ops))
           end else if t.(1).[0] = 'n' then begin
             let k = int_of_string (String.sub t.(1) 1 (String.length t.(1) - 1)) in
             print_endline (show (mps_run_bsr_pos narrow widen (nat_of_int k) (stream_of data false) fuel o ops))
